@@ -86,6 +86,7 @@ package clickhouse_planner
 //@ func FormatFromDate [C13]
 //@   modifies fmtDay
 //@   ensures fmtDay == fdiv(from.UnixNano() - 1800000000000, 86400000000000)
+//@   ensures dayOfDateText(result) == fdiv(from.UnixNano() - 1800000000000, 86400000000000)
 
 // The upper date bound must not be earlier than the UTC day of the end of the
 // window, whatever zone the process runs in (index rows are dated in UTC).
@@ -309,7 +310,7 @@ package clickhouse_planner
 //@ spec fn mRegex(c sql.SQLCondition, want int64, v string) bool = smVal(c).fn == "==" && typeis(smVal(c).clauses[0], "*sqlMatch") && unbox(smVal(c).clauses[0], "*sqlMatch").pattern == v && typeis(smVal(c).clauses[1], "*sql.IntVal") && unbox(smVal(c).clauses[1], "*sql.IntVal").val == want
 //@ func (*StreamSelectPlanner).Process [C07,C13,C17]
 //@   flag checks=-index,-assert
-//@   at sql_select.Ge lower-date-covers-window-start: isDateCol(arg0) ==> fmtDay <= fdiv(ctx.From.UnixNano(), 86400000000000)
+//@   at sql_select.Ge lower-date-covers-window-start: isDateCol(arg0) ==> dayOfDateText(unbox(arg1, "*sql.StringVal").val) <= fdiv(ctx.From.UnixNano(), 86400000000000)
 //@   loop 1:
 //@     modifies elems(clauses)
 //@     step names-the-label: mShape(clauses[rangeindex], s.LabelNames[rangeindex])
